@@ -20,7 +20,7 @@
 (*              content])]), style]                                           *)
 (*   attrs   = Seq([n |-> STRING, v |-> STRING])   (v = "" : bare name)       *)
 (*   style   = [sep : "line"|"inline"|"mixed", sp : BOOLEAN, q : "dq"|"sq"|   *)
-(*              "none", first : BOOLEAN]                                      *)
+(*              "none", first : BOOLEAN, hbar : BOOLEAN]                      *)
 (*                                                                            *)
 (*   Render(page)        the atoms of the wikitext an author writes           *)
 (*   TreeOf(page)        the tree the property demands                        *)
@@ -116,7 +116,8 @@ RenderTable(g) ==
       cap == IF ~g.hascap THEN <<>>
              ELSE <<"|", "+">> \o AttrPart(g.cattrs) \o Sp \o Render(g.caption) \o <<"NL">>
       Mark(kind) == IF kind = "hdr" THEN <<"!">> ELSE <<"|">>
-      DMark(kind) == IF kind = "hdr" THEN <<"!", "!">> ELSE <<"|", "|">>
+      \* on a header line both !! and || separate header cells (style.hbar chooses ||)
+      DMark(kind) == IF kind = "hdr" /\ ~st.hbar THEN <<"!", "!">> ELSE <<"|", "|">>
       \* an empty cell is written as one blank (`| || x`, `! !! x`)
       Cell(c) == AttrPart(c.attrs) \o (IF c.content = <<>> THEN <<"SP">> ELSE Sp \o Render(c.content))
       RowMarker(i) ==
